@@ -160,24 +160,47 @@ void XmppSocket::setSocket(QSslSocket *socket)
 
         // do not emit started() with direct TLS (this happens in encrypted())
         if (!m_directTls) {
-            m_dataBuffer.clear();
-            m_streamOpenElement.clear();
+            resetIncomingState();
             Q_EMIT started();
         }
     });
     QObject::connect(socket, &QSslSocket::encrypted, this, [this]() {
         debug(u"Socket encrypted"_s);
         // this happens with direct TLS or STARTTLS
-        m_dataBuffer.clear();
-        m_streamOpenElement.clear();
+        resetIncomingState();
         Q_EMIT started();
     });
     QObject::connect(socket, &QSslSocket::errorOccurred, this, [this](QAbstractSocket::SocketError) {
         warning(u"Socket error: "_s + m_socket->errorString());
     });
     QObject::connect(socket, &QSslSocket::readyRead, this, [this]() {
-        processData(QString::fromUtf8(m_socket->readAll()));
+        processData(decodeIncoming(m_socket->readAll()));
     });
+}
+
+void XmppSocket::resetIncomingState()
+{
+    m_dataBuffer.clear();
+    m_streamOpenElement.clear();
+#if QT_VERSION >= QT_VERSION_CHECK(6, 0, 0)
+    m_decoder.resetState();
+#else
+    m_decoder.reset();
+#endif
+}
+
+// A read may end in the middle of a multi-byte UTF-8 sequence: the decoder must keep its
+// state between reads (QString::fromUtf8() on each read turns both halves into U+FFFD).
+QString XmppSocket::decodeIncoming(const QByteArray &data)
+{
+#if QT_VERSION >= QT_VERSION_CHECK(6, 0, 0)
+    return m_decoder.decode(data);
+#else
+    if (!m_decoder) {
+        m_decoder.reset(QTextCodec::codecForName("UTF-8")->makeDecoder());
+    }
+    return m_decoder->toUnicode(data);
+#endif
 }
 
 bool XmppSocket::isConnected() const
